@@ -517,6 +517,40 @@ abundance of its element before the balance is evaluated:
 /-- one counter: `if (abundance > 0.) { J = J / abundance; }` -/
 def normalise (J A : α) : α := if 0.0 < A then J / A else J
 
+/-! ## the subgrid-level wrappers (normalisation by luminosity, total weight and cell volume)
+
+`IonizationStateCalculator::calculate_ionization_state(totweight, subgrid)` (IonizationStateCalculator.cpp
+567-578) and `TemperatureCalculator::calculate_temperature(loop, totweight, subgrid)`
+(TemperatureCalculator.cpp 980-1001) hand `jfac / V` and `hfac / V` to the cell-level kernels, with
+`jfac = luminosity / totweight`, `hfac = jfac * h_Planck` and `V` the cell volume of the subgrid
+(`DensitySubGrid::iterator::get_volume`, cell sizes `box[3+i] / ncell[i]` from the constructor). -/
+
+/-- `_cell_size[0] * _cell_size[1] * _cell_size[2]` with `_cell_size[i] = side[i] / ncell[i]` -/
+def cellVolume (sx sy sz nx ny nz : α) : α := sx / nx * (sy / ny) * (sz / nz)
+
+/-- `jfac = _luminosity / totweight` -/
+def jfacOf (L tw : α) : α := L / tw
+/-- `hfac = jfac * PHYSICALCONSTANT_PLANCK` -/
+def hfacOf (L tw : α) : α := jfacOf L tw * 6.626070040e-34
+/-- first argument of the cell-level kernels: `jfac / cellit.get_volume()` -/
+def jfacCell (L tw V : α) : α := jfacOf L tw / V
+/-- second argument: `hfac / cellit.get_volume()` -/
+def hfacCell (L tw V : α) : α := hfacOf L tw / V
+
+/-- the two copies of the luminosity a `TemperatureCalculator` holds (its own and the one of the
+embedded `IonizationStateCalculator`) -/
+structure Lums (α : Type) where
+  temp : α
+  ion : α
+
+/-- `TemperatureCalculator::update_luminosity` (TemperatureCalculator.hpp 150-153) -/
+def updateLuminosity (L : α) (_ : Lums α) : Lums α := ⟨L, L⟩
+
+/-- which luminosity `calculate_temperature(loop, totweight, subgrid)` normalises with:
+the temperature branch uses its own copy, the ionization-only branch the embedded calculator's -/
+def lumUsed (doTemp : Bool) (loop minIter : Nat) (l : Lums α) : α :=
+  if doTemp && decide (minIter < loop) then l.temp else l.ion
+
 /-! ## `TemperatureCalculator::compute_cooling_and_heating_balance` (TemperatureCalculator.cpp 207-501)
 
 Everything of the balance function except `LineCoolingData::get_cooling`, which stays an
